@@ -18,8 +18,19 @@ git apply $out/patch.diff || { echo "PATCH DOES NOT APPLY"; git -C /repo worktre
 r2=$(go test -vet=off -count=1 -timeout 120s -run "^$tname\$" ./$pkgdir 2>&1 | tail -15)
 echo "$r2" | grep -q "^ok" && with=pass || with=fail
 rm $w/$pkgdir/zz_seed_demo_test.go
-suite=$(go test -vet=off -count=1 -timeout 20m ./... 2>&1 | grep -v "no test files" | grep -v "^ok" | head -5)
-[ -z "$suite" ] && suiteres=pass || suiteres="fail: $suite"
+suite=$(go test -vet=off -count=1 -timeout 20m ./... 2>&1 | grep "^FAIL\|^--- FAIL\|^panic" | head -8)
+if [ -n "$suite" ]; then
+  # timing-sensitive packages (itest, channelmonitor) fail now and then on a loaded machine: re-run each failing package alone, twice
+  pkgs=$(echo "$suite" | grep "^FAIL" | awk '{print $2}' | grep / | sed 's|github.com/filecoin-project/go-data-transfer/v2|.|' | sort -u)
+  still=""
+  for pk in $pkgs; do
+    ok=0
+    for i in 1 2; do go test -vet=off -count=1 -timeout 20m $pk >/dev/null 2>&1 && { ok=1; break; }; done
+    [ $ok = 1 ] || still="$still $pk"
+  done
+  [ -z "$still" ] && suite="" && note=" (after re-running alone:$(echo $pkgs | tr '\n' ' '))"
+fi
+[ -z "$suite" ] && suiteres="pass$note" || suiteres="fail: $suite"
 cd /
 git -C /repo worktree remove --force $w
 echo "CONFIRM $name: demo_without_change=$without demo_with_change=$with suite_with_change=$suiteres test=$tname pkg=$pkgdir"
